@@ -345,30 +345,6 @@ func (r *UnitRun) finish(st *State, vals []Val, n *ast.ReturnStmt) {
 	if !r.errReturnedVals(vals) {
 		r.publish(st, n)
 	}
-	// intermediate facts ("have"): stated over the locals as they are at this return, proved in order, then assumed
-	if len(r.unit.Have) > 0 && !r.errReturnedVals(vals) {
-		for i, c := range r.unit.Have {
-			func() {
-				defer func() {
-					if x := recover(); x != nil {
-						if _, ok := x.(toolLimit); ok {
-							return // a local is not defined on this path
-						}
-						panic(x)
-					}
-				}()
-				henv := &SpecEnv{run: r, st: st, old: r.entry, bound: map[string]Val{}}
-				goal := r.specBool(henv, c, "have of "+r.unit.Name)
-				ost := st
-				if len(c.Uses) > 0 {
-					ost = st.clone()
-					r.assumeNamed(ost, c.Uses)
-				}
-				r.oblige(ost, "have", fmt.Sprintf("%d", i), goal, n, "intermediate fact: "+c.Text, c.Tags)
-				st.assume(goal)
-			}()
-		}
-	}
 	res := r.resultNames()
 	bound := map[string]Val{}
 	// in postconditions a parameter name denotes the argument value (parameters are local variables in Go and may be
@@ -388,12 +364,43 @@ func (r *UnitRun) finish(st *State, vals []Val, n *ast.ReturnStmt) {
 		v := r.convertTo(st, vals[i], rv.typ)
 		bound[rv.name] = v
 		bound[fmt.Sprintf("res%d", i)] = v
-		if rv.obj != nil {
-			st.bind(rv.obj, v)
-		}
 	}
 	if len(res) > 0 {
 		bound["res"] = bound[res[0].name]
+	}
+	// intermediate facts ("have"): stated over the locals as they are at this return, proved in order, then assumed
+	if len(r.unit.Have) > 0 && !r.errReturnedVals(vals) {
+		for i, c := range r.unit.Have {
+			func() {
+				defer func() {
+					if x := recover(); x != nil {
+						if _, ok := x.(toolLimit); ok {
+							return // a local is not defined on this path
+						}
+						panic(x)
+					}
+				}()
+				henv := &SpecEnv{run: r, st: st, old: r.entry, bound: map[string]Val{}}
+				// locals keep their own values (a named result may be reassigned before the return statement); the
+				// returned values are res0, res1, ...
+				for i := range res {
+					henv.bound[fmt.Sprintf("res%d", i)] = bound[fmt.Sprintf("res%d", i)]
+				}
+				goal := r.specBool(henv, c, "have of "+r.unit.Name)
+				ost := st
+				if len(c.Uses) > 0 {
+					ost = st.clone()
+					r.assumeNamed(ost, c.Uses)
+				}
+				r.oblige(ost, "have", fmt.Sprintf("%d", i), goal, n, "intermediate fact: "+c.Text, c.Tags)
+				st.assume(goal)
+			}()
+		}
+	}
+	for _, rv := range res {
+		if rv.obj != nil {
+			st.bind(rv.obj, bound[rv.name])
+		}
 	}
 	retSite := "end"
 	if n != nil {
@@ -440,8 +447,27 @@ func (r *UnitRun) finish(st *State, vals []Val, n *ast.ReturnStmt) {
 		}
 		envI := &SpecEnv{run: r, st: st, old: r.entry, bound: b2}
 		for i, c := range au.Ensures {
+			if c.Ghost {
+				continue
+			}
 			goal := r.specBool(envI, c, "ensures of "+au.Name)
 			r.oblige(st, "post", fmt.Sprintf("%s.%d", au.Name, i), goal, node, "function-type postcondition "+au.Name+": "+c.Text+" (at "+retSite+")", c.Tags)
+		}
+		// the ghost step of the protocol: advance the ghosts it modifies, assume its ghost postconditions, then the closure's
+		// invariant must hold again
+		for _, m := range au.Modifies {
+			if g, ok := st.ghost[m]; ok && g.K == KRef {
+				st.ghost[m] = Val{K: KRef, T: r.fresh("step_"+m, g.Sort), Sort: g.Sort, Go: g.Go}
+			}
+		}
+		for _, c := range au.Ensures {
+			if c.Ghost {
+				st.assume(r.specBool(envI, c, "ghost step of "+au.Name))
+			}
+		}
+		for i, c := range r.unit.Invariant {
+			goal := r.specBool(envI, c, "closure invariant of "+r.unit.Name)
+			r.oblige(st, "closure-inv", fmt.Sprintf("%d", i), goal, node, "closure invariant re-established: "+c.Text+" (at "+retSite+")", c.Tags)
 		}
 	}
 	// vacuity canary: the path to this return must be satisfiable
